@@ -40,10 +40,10 @@ Decode(payload, ch) ==
       oct   == BytesOfAir(plain)
       len   == oct[2] % 64
       end   == 2 + len IN
-  IF ch < 0 \/ Len(oct) < 2 \/ end + 3 > Len(oct) THEN [ok |-> FALSE, why |-> "length", hdr |-> 0, len |-> 0, pdu |-> <<>>]
+  IF ch < 0 \/ Len(oct) < 2 \/ end + 3 > Len(oct) THEN [ok |-> FALSE, why |-> "length", hdr |-> 0, len |-> 0, pdu |-> <<>>, rfu |-> FALSE]
   ELSE IF SubSeq(plain, 8 * end + 1, 8 * end + 24) # CrcBits(SubSeq(plain, 1, 8 * end))
-       THEN [ok |-> FALSE, why |-> "crc", hdr |-> oct[1], len |-> len, pdu |-> SubSeq(oct, 1, end)]
-  ELSE [ok |-> TRUE, why |-> "", hdr |-> oct[1], len |-> len, pdu |-> SubSeq(oct, 1, end)]
+       THEN [ok |-> FALSE, why |-> "crc", hdr |-> oct[1], len |-> len, pdu |-> SubSeq(oct, 1, end), rfu |-> oct[2] >= 64]
+  ELSE [ok |-> TRUE, why |-> "", hdr |-> oct[1], len |-> len, pdu |-> SubSeq(oct, 1, end), rfu |-> oct[2] >= 64]   \* rfu: reserved upper bits of the length octet set
 
 \* ---- encoding (independent encoder for C19): PDU octets -> nRF24L01 payload octets for channel index ch
 Encode(pdu, ch) ==
